@@ -310,12 +310,17 @@ class Plane:
         if ptt_vector is None or plane.opd.size == 1:
             return plane
 
+        # what the OPD array holds outside the mask is not data (NaN in a measured
+        # map): it takes no part in the fit
+        inside = self.mask != 0 if self.mask.ndim == 2 else np.any(self.mask != 0, axis=0)
+        opd = np.where(inside, plane.opd, 0.0)
+
         if self.size == 1:
-            t = np.linalg.lstsq(ptt_vector.T, plane.opd.ravel(), rcond=None)[0]
+            t = np.linalg.lstsq(ptt_vector.T, opd.ravel(), rcond=None)[0]
             opd_tilt = np.einsum('ij,i->j', ptt_vector[1:3], t[1:3])
             # (rebind rather than subtract in place: the OPD array may be the caller's
             # own array, shared with other planes)
-            plane.opd = plane.opd - opd_tilt.reshape(plane.opd.shape)
+            plane.opd = np.where(inside, opd - opd_tilt.reshape(opd.shape), plane.opd)
             plane.tilt.append(Tilt(x=t[1], y=t[2]))
 
         else:
@@ -324,10 +329,10 @@ class Plane:
 
             # iterate over the segments and compute the tilt term
             for seg in np.arange(self.size):
-                t[seg] = np.linalg.lstsq(ptt_vector[3 * seg:3 * seg + 3].T, plane.opd.ravel(),
+                t[seg] = np.linalg.lstsq(ptt_vector[3 * seg:3 * seg + 3].T, opd.ravel(),
                                          rcond=None)[0]
                 seg_tilt = np.einsum('ij,i->j', ptt_vector[3 * seg + 1:3 * seg + 3], t[seg, 1:3])
-                opd_no_tilt[seg] = (plane.opd - seg_tilt.reshape(plane.opd.shape)) * self.mask[seg]
+                opd_no_tilt[seg] = (opd - seg_tilt.reshape(opd.shape)) * self.mask[seg]
 
             # a sample that belongs to several segment masks (shared edge samples of
             # closely packed, antialiased segments) must not be counted several times
